@@ -334,10 +334,14 @@ class HistoryPart:
             s.have = {}
             ctx.label("unphase")
             return
-        _, tag, subset, samples = op
+        _, tag, subset, samples = op[:4]
         samples = [x for x in samples if x in s.case["samples"]] or None
         before = statements(s.current)
         kw = {"samples": list(samples)} if samples else {}
+        if len(op) > 4 and op[4]:
+            # a run restricted to SNVs must still drop the phase an earlier run gave to the records it now skips
+            kw["only_snvs"] = True
+            ctx.label("phase --only-snvs")
         out, _ = P.run_phase(s.dir, s.current, [s.bams[subset]], reference=s.ref, tag=tag, out_name="step%d.vcf" % s.step, trace=False, **kw)
         refout, _ = P.run_phase(s.dir, s.orig, [s.bams[subset]], reference=s.ref, tag=tag, out_name="ref%d.vcf" % s.step, trace=False, **kw)
         after = statements(out)
@@ -389,11 +393,11 @@ class HistoryPart:
                 self.step(["init", c])
 
             @precondition(lambda self: self.state.case is not None)
-            @rule(tag=st.sampled_from(["PS", "HP"]), subset=st.integers(0, 2), which=st.integers(0, 2))
-            def phase(self, tag, subset, which):
+            @rule(tag=st.sampled_from(["PS", "HP"]), subset=st.integers(0, 2), which=st.integers(0, 2), only_snvs=st.sampled_from([False, False, True]))
+            def phase(self, tag, subset, which, only_snvs):
                 samples = self.state.case["samples"]
                 sel = [] if which == 0 or len(samples) == 1 else [samples[which - 1]]
-                self.step(["phase", tag, subset, sel])
+                self.step(["phase", tag, subset, sel, only_snvs])
 
             @precondition(lambda self: self.state.case is not None and self.state.current != self.state.orig)
             @rule()
